@@ -46,6 +46,19 @@ def gen_cases(tier, seed):
         r = rng.random()
         X = list(edges) if r < 0.4 else (rng.sample(edges, rng.randint(1, len(edges))) if r < 0.85 else [rng.choice(edges)])
         cases.append({"kind": "cyc", "spec": gen.spec(nodes, edges), "X": gen.jl(X)})
+    # digraphs with parts that lie on no source-to-sink walk (a cycle that cannot reach the sink / cannot be reached from a source)
+    for i in range(max(20, n // 20)):
+        rng = gen.rng_for("C06dead", seed, i)
+        nodes, edges = gen.cyc_any(rng, 10)
+        nodes = list(nodes); edges = list(edges)
+        x = rng.choice(nodes); r = rng.random()
+        if r < 0.5:
+            nodes.append("dead1"); edges += [(x, "dead1"), ("dead1", "dead1")]
+        if r >= 0.3:
+            nodes.append("dead2"); edges += [("dead2", "dead2"), ("dead2", x)]
+        live = [e for e in edges if "dead1" not in e and "dead2" not in e]
+        X = list(edges) if rng.random() < 0.3 else rng.sample(live, rng.randint(1, len(live)))
+        cases.append({"kind": "cyc", "spec": gen.spec(nodes, edges), "X": gen.jl(X)})
     for i in range(n):
         rng = gen.rng_for("C06d", seed, i)
         nodes, edges = gen.dag_any(rng, 14)
@@ -103,10 +116,14 @@ def run_cyc(case, viol, obs):
         E = list(G.edges)
         Xs += [[e] for e in E[:4]] + [E[::2], E[1::2]]
     nontriv = False
+    fwd = ref.reach_from(st, st.source); bwd = ref.reach_to(st, st.sink)
     for X in Xs:
-        X = [e for e in X if G.has_edge(*e)]
+        # a trusted edge lying on no source-to-sink walk has no walk cover at all (the property is vacuous for such an X, and no
+        # model passes one): only coverable edges are trusted
+        X = [e for e in X if G.has_edge(*e) and e[0] in fwd and e[1] in bwd]
         if not X:
             continue
+        obs["c06.cyc_trusted_sets"] += 1
         r = M.safe_call(spc.maximal_safe_sequences_via_dominators, st, set(X))
         if r[0] != "ok":
             viol.append({"sig": f"C06/cyc-safe-sequences-raise/{r[1]}", "msg": f"{r[2]} edges {list(G.edges)} X {X}"}); continue
